@@ -241,7 +241,9 @@ def _bm1_write(F, R, fn, b, t, idx):
     isv = lambda k: comp(k)
     v1, v2 = 1, 2
     g_off0 = lambda g: g_cmp("Eq", True, isv(v1), lambda z: z[:2] == ("c", 0))(g) or g_cmp("Eq", True, lambda z: z[:2] == ("c", 0), isv(v1))(g)
-    ok1, _ = guarded(fn, b, g_off0)
+    # (the two conditions may be tested directly or carried in a flag: `let partial = off != 0 || avail != n; if !partial {..}`)
+    from .ev import implying_edges
+    ok1 = fn.unreachable_without(b, list(implying_edges(fn, g_off0)))
     R.require(ok1, fn, "write:offset==0", "whole-block blanking reachable with a non-zero offset into the block (bytes before the offset would be zeroed)", fn.loc(b))
 
     def is_to_copy(x):
@@ -251,7 +253,7 @@ def _bm1_write(F, R, fn, b, t, idx):
         return x[0] == "call" and x[1] and x[1].endswith("::min") and any(isv(v2)(a) for a in x[2])
 
     g_full = lambda g: g_cmp("Eq", True, is_to_copy, isv(v2))(g) or g_cmp("Eq", True, isv(v2), is_to_copy)(g)
-    ok2, _ = guarded(fn, b, g_full)
+    ok2 = fn.unreachable_without(b, list(implying_edges(fn, g_full)))
     R.require(ok2, fn, "write:to_copy==avail", "whole-block blanking reachable when fewer bytes than the rest of the block are written (tail would be zeroed)", fn.loc(b))
     # block_avail must be LEN - block_offset in find_data_on_disk (so offset==0 && to_copy==avail <=> whole block)
     fd = F.fn(VMD + "::find_data_on_disk")
